@@ -44,6 +44,13 @@ func c04Cases(seed int64, tier string) []core.Case {
 	}
 	cs = append(cs, core.MkCase("dirgrow-0", "dirgrow", seed, ext4Case{Cfg: Ext4Cfg{Size: 16 << 20}, Mode: "dirgrow", Steps: 60}))
 	cs = append(cs, core.MkCase("appendspan-0", "appendspan", seed, ext4Case{Cfg: Ext4Cfg{Size: 32 << 20, SPB: 2, BPG: 4096}, Mode: "appendspan", Steps: 330}))
+	nf := 4
+	if tier == "thorough" {
+		nf = 40
+	}
+	for i := 0; i < nf; i++ {
+		cs = append(cs, core.MkCase(fmt.Sprintf("dirfrag-%d", i), "dirfrag", r.Int63(), ext4Case{Cfg: Ext4Cfg{Size: 16 << 20, SPB: []uint8{2, 2, 8, 4}[i%4]}, Mode: "dirfrag"}))
+	}
 	if tier == "thorough" {
 		cs = append(cs, core.MkCase("dirgrow-1", "dirgrow", seed+1, ext4Case{Cfg: Ext4Cfg{Size: 64 << 20, SPB: 8, Start: 1 << 20}, Mode: "dirgrow", Steps: 400}))
 	}
